@@ -577,7 +577,11 @@ where
 {
     let hash = content_hash(object)?;
 
-    let hashes_value = object
+    // Work on a copy until every fallible step has succeeded, so that the object is left as it was
+    // if this function returns an error.
+    let mut hashed = object.clone();
+
+    let hashes_value = hashed
         .entry("hashes".to_owned())
         .or_insert_with(|| CanonicalJsonValue::Object(BTreeMap::new()));
 
@@ -587,11 +591,13 @@ where
         }
         _ => return Err(JsonError::not_of_type("hashes", JsonType::Object)),
     };
+    let hashes_value = hashes_value.clone();
 
-    let mut redacted = redact(object.clone(), redaction_rules, None)?;
+    let mut redacted = redact(hashed, redaction_rules, None)?;
 
     sign_json(entity_id, key_pair, &mut redacted)?;
 
+    object.insert("hashes".into(), hashes_value);
     object.insert("signatures".into(), mem::take(redacted.get_mut("signatures").unwrap()));
 
     Ok(())
